@@ -115,4 +115,14 @@ CHECKS = {
              "reach": {"VerifH_Retry_Pass": ["pass-done", "failed-entry"]}},
         ],
     },
+    "C18": {
+        "groups": [
+            {"name": "c18-first", "files": ["h_sys.go", "h_sys_c18.go"], "harnesses": ["VerifH_SYS_C18"], "concurrent": True,
+             "flags": {"quick": [P(nreq=1, faults=1)], "thorough": [P(nreq=2, faults=1)]},
+             "reach": {"VerifH_SYS_C18": ["quiescent", "answer-dropped"]}},
+            {"name": "c18-retransmission", "files": ["h_sys.go", "h_sys_c18.go"], "harnesses": ["VerifH_SYS_C18"], "concurrent": True,
+             "flags": {"quick": [P(nreq=1, faults=2, cuts=1)], "thorough": [P(nreq=2, faults=2, cuts=1)]},
+             "reach": {"VerifH_SYS_C18": ["quiescent", "answer-dropped"]}},
+        ],
+    },
 }
